@@ -246,19 +246,33 @@ def _run(cmd, timeout, cwd=None):
         return 124, f"TIMEOUT after {timeout}s: {' '.join(map(str, cmd))}\n{e.stdout or ''}"
 
 
-def make_all(jobs: int = 16, clean: bool = False) -> tuple[bool, str]:
-    """Full .vo build of /verif/coq (incremental).  Serialised by a file lock so that
-    several checks started at once do not race on the same .vo files."""
+def gen_coqproject() -> None:
+    """_CoqProject is derived from the directory listing (never edited by hand)."""
+    files = sorted(str(f.relative_to(COQ)) for f in THEORIES.rglob("*.v") if not f.name.startswith("_"))
+    text = "-Q theories Verif\n-arg -w -arg -notation-overridden,-deprecated-hint-without-locality,-deprecated-instance-without-locality\n" + "\n".join(files) + "\n"
+    cp = COQ / "_CoqProject"
+    if not cp.exists() or cp.read_text() != text:
+        cp.write_text(text)
+
+
+def make_all(jobs: int = 16, clean: bool = False, prop: str | None = None) -> tuple[bool, str]:
+    """Full .vo build (incremental) of /verif/coq, or of what one property needs
+    (its Properties_Cxx.vo and everything that depends on).  Serialised by a file lock so
+    that several checks started at once do not race on the same .vo files."""
     SCRATCH.mkdir(exist_ok=True)
     with open(SCRATCH / "make.lock", "w") as lock:
         fcntl.flock(lock, fcntl.LOCK_EX)
+        gen_coqproject()
         if not (COQ / "Makefile").exists() or (COQ / "_CoqProject").stat().st_mtime > (COQ / "Makefile").stat().st_mtime:
             rc, out = _run(["coq_makefile", "-f", "_CoqProject", "-o", "Makefile"], 120, cwd=COQ)
             if rc != 0:
                 return False, out
         if clean:
             _run(["make", "clean"], 300, cwd=COQ)
-        rc, out = _run(["timeout", "1500", "make", f"-j{jobs}"], 1600, cwd=COQ)
+        targets = []
+        if prop is not None:
+            targets = [str(f.relative_to(COQ)) + "o" for f in sorted((THEORIES / prop).glob("*.v")) if not f.name.startswith("_")]
+        rc, out = _run(["timeout", "1500", "make", f"-j{jobs}", *targets], 1600, cwd=COQ)
         return rc == 0, out
 
 
@@ -417,7 +431,7 @@ class Check:
 
     # ---- stage 1: proofs
     def proofs(self, dirs: list[str], extra_property_files: list[str] | None = None, gen_lemmas: list[str] | None = None):
-        ok, out = make_all(clean=False)
+        ok, out = make_all(clean=(self.tier == 'thorough' and os.environ.get('VERIF_CLEAN') == '1'), prop=self.prop)
         self.checker_cmd = (
             f"cd /verif/coq && coq_makefile -f _CoqProject -o Makefile && make -j16 (full .vo build); "
             f"coqc -Q theories Verif theories/{self.prop}/Properties_{self.prop}.v (Print Assumptions under every Theorem)"
